@@ -1219,6 +1219,12 @@ class MiniInt:
                 return r if isinstance(r, float) else int(r)
         if k == "UnaryOperator" and n.get("op") == "*" and self.mem is not None:
             return int(self.mem(self.expr(kids(n)[0], env, depth)))
+        if k == "ArraySubscriptExpr" and strip(kids(n)[0])["k"] == "DeclRefExpr" and isinstance(env.get(strip(kids(n)[0]).get("declId")), list):
+            arr_ = env[strip(kids(n)[0])["declId"]]
+            ix_ = self.expr(kids(n)[1], env, depth)
+            if not (isinstance(ix_, int) and 0 <= ix_ < len(arr_)):
+                raise AnalysisBroken("MiniInt: `%s` reads element %s of a local array of %d" % (render(n)[:40], ix_, len(arr_)))
+            return arr_[ix_]
         if k == "ArraySubscriptExpr" and self.mem is not None:
             return int(self.mem(self.expr(kids(n)[0], env, depth) + self.expr(kids(n)[1], env, depth)))
         if k == "UnaryOperator":
@@ -1340,6 +1346,12 @@ class MiniInt:
                                 i0_["k"] in ("CXXOperatorCallExpr", "ArraySubscriptExpr", "MemberExpr", "UnaryOperator"):
                             env[("ref", v["declId"])] = kids(v)[0]           # T& x = a[i]: reads and writes of x go to a[i]
                             continue
+                        if i0_ is not None and i0_["k"] == "InitListExpr" and re.search(r"\[\d*\]$", ct_) and len(kids(i0_)) >= 1:
+                            try:
+                                env[v["declId"]] = [self.expr(e_, env, depth) for e_ in kids(i0_)]     # T a[] = {e0, e1, ...}: a local array of scalars
+                                continue
+                            except AnalysisBroken:
+                                pass
                         try:
                             env[v["declId"]] = self.expr(kids(v)[0], env, depth)
                         except AnalysisBroken:
